@@ -37,6 +37,7 @@ structure FnCond where
   status : String
   reason : String
   claim : Bool
+  message : String := ""
   deriving DecidableEq, Repr, Inhabited
 
 /-- value of `extra_resources[key]`: `none` = nil Resources (by-name selector, not found) -/
@@ -166,5 +167,10 @@ def runPipeline (cluster : List ClusterObj) (observed : List Res) : List Step â†
         if e.2 then .failed st2 true else runPipeline cluster observed ss (i + 1) st2
 
 def initState : PipeState := âŸ¨[], none, [], [], [], []âŸ©
+
+/-- the trace of a pipeline result -/
+def traceOf : PipeResult â†’ List (Nat Ã— Request)
+  | .done s => s.trace
+  | .failed s _ => s.trace
 
 end Xp.C04
